@@ -27,6 +27,22 @@ MENU = [
     ("InnerFl", True, [INNER_FL]), ("InnerIn", True, [INNER_IN]), ("InnerEn", True, [INNER_EN]),
     ("Vec<InnerFl>", False, [INNER_FL]), ("Option<InnerIn>", False, [INNER_IN]), ("Gp<InnerFl>", True, [INNER_FL]),
 ]
+# systematic part: a struct made only of flattened members, for every word without repetition of length
+# 1..3 over {struct, generic struct, internally tagged enum, adjacently tagged enum} (their keys are
+# disjoint) - each such type then goes through every presentation like any other menu entry
+def _flat_words():
+    import itertools
+    alpha = [("St", "s"), ("Gp<i32>", "g"), ("Ei", "e"), ("Ea", "f")]
+    out = []
+    for n in (1, 2, 3):
+        for w in itertools.permutations(alpha, n):
+            name = "Fw" + "".join(t[0][:2].replace("<", "") for t in w)
+            td = TypeDef(name, "struct", "named", [Field(t, f, ["#[ts(flatten)]"]) for t, f in w], derives=TS_ONLY, vals=False)
+            out.append((name, True, [td]))
+    return out
+
+
+MENU += _flat_words()
 SIBS = {0: ("", []), 1: ("s0: number,", [Field("i32", "s0")]), 2: ("s0: number, s1: string,", [Field("i32", "s0"), Field("String", "s1")])}
 
 
